@@ -9,7 +9,8 @@ the property statement judges the real GIR: PRESENCE of the documented attribute
 the block names, ABSENCE elsewhere (metamorphic: the same namespace scanned without that one block
 may differ only in the target element's subtree and in the effects the statement itself names:
 the shadows/shadowed-by partner, the virtual method inheriting from its invoker, the accessor
-named by a property).
+named by a property; and the knock-on effects of a role annotation renaming the documented function:
+accessor pairing by name, emitter validation by name).
 
 Only public entry points of /repo are used (the comment parser's parse_comment_blocks, the
 pipeline through scanpipe.scan); an exception escaping the pipeline on an in-scope input is
@@ -1620,7 +1621,10 @@ def run(ctx):
         'rule': 'seeded generator of namespaces (classes with instance/class structs, properties, signals, fields, virtual '
                 'slots, methods, constructors, static functions; interfaces; records; unions; enums; flags; aliases; '
                 'callbacks; constants; toplevel functions) with near-colliding names (Foo:bar, Foo::bar, Foo.bar, FooBar, '
-                'Bar:bar, FooBar:BAR, shared property/signal/field/slot names across classes) and a random assignment of '
+                'Bar:bar, FooBar:BAR, shared property/signal/field/slot names across classes), accessor-shaped method '
+                'names (get_/set_/is_<prop>, <prop>, dashed property names), defaults reported by the runtime dump '
+                '(incl. the empty string), void methods as signal emitters with matching and mismatching signatures, '
+                'and a random assignment of '
                 'identifier annotations and tags to every element kind, incl. competing / chained / dangling rename-to, '
                 '(virtual), role annotations, wrong-kind annotations and near-miss keys; a malformed stream (missing or '
                 'surplus options, rename-to an enum member, (virtual) on a record method). Every namespace: real pipeline '
@@ -1646,7 +1650,14 @@ def run(ctx):
         'parameter/return annotations and @param documentation of fields and enum members are out of scope (C01)',
         'the async/finish/sync name heuristics of pass 3 are not modelled: generated names never end in _async, _sync, '
         '_finish; static functions of records/enums (cloned by the scanner) are not generated',
-        'introspectable="0" derived by IntrospectablePass from a skipped type is accepted on elements mentioning that type',
+        'introspectable="0" derived by IntrospectablePass (C05) is accepted in the model comparison only on elements that '
+        'mention a type the model marks (skip) -- in their own type, parameters, return value or the callback a field '
+        'holds --, on children of such an element, or where the blockless scan already has it; (skip) itself must '
+        'always arrive (presence) and the re-scan without the block must not change anything else (absence)',
+        "IntrospectablePass's validation of (emitter) against the method's signature is not modelled (outside the "
+        "anchors); the statement oracle judges it: a refusal is accepted only when return type or parameters differ",
+        'a function the scanner writes twice (moved-to original + copy inside a type) is outside the model comparison; '
+        'the rename oracle looks for the shadows/shadowed-by pair among all copies',
         'annotations given with the wrong number of options are outside the statement (the comment parser warns); the '
         'model reproduces the IndexError / AttributeError the real code raises on them',
         "rename-to naming an enum member's symbol (AttributeError in _apply_annotation_rename_to) is not modelled",
